@@ -34,7 +34,9 @@ def handleC09 : List String → Verdict
     | some t0, some t1, some texts =>
       let wsNorm := fun (t : Ast.Nodes) => AstParse.mapWs t
       let rows := (List.zip t0 (List.zip t1 texts)).map fun p =>
-        if Printer.nodesInFragment p.1 then
+        -- in the fragment: the syntactic conditions, and the formatter left every Go expression text as it was
+        -- (gofmt-stable expressions; gofmt is not modelled)
+        if Printer.nodesInFragment p.1 && AstParse.nodesExprs p.1 == AstParse.nodesExprs p.2.1 then
           (if Printer.body p.1 != p.2.2 then 1
            else if !decide (wsNorm (Reparse.body p.1) = wsNorm p.2.1) then 3
            else if !Reparse.wfNodes p.1 then 4
